@@ -111,6 +111,7 @@ def first_error(stderr: str) -> str:
 
 def normalise_error(msg: str) -> str:
     """Collapse identifiers in quotes and numbers so that the tag names the error class."""
+    msg = re.sub(r';.*first defined here', '', msg)
     msg = re.sub(r"[‘'`][^’']*[’']", "'…'", msg)
     msg = re.sub(r'\d+', 'N', msg)
     msg = re.sub(r'\s+', '-', msg.strip())
@@ -127,6 +128,9 @@ class ShellProgram:
         self.build_exc = None
         self.compile_err = ''
         self.exe: Dict[str, str] = {}
+        # build the same assignment spelled differently first (shared PortSelect objects, shared
+        # Builder): a history that must not leak into this build
+        self.warm = True
 
     def generate(self) -> bool:
         """Run dznpy's builder and write all sources."""
@@ -134,7 +138,9 @@ class ShellProgram:
                                                  self.info['provides'], self.info['requires'],
                                                  self.info['injected'])
         self.mapping = mapping or {}
-        res = shellbuild.outcome(self.enc, M.to_json(self.gen.model))
+        warmups = shellbuild.equivalent_spellings(self.enc, self.info['provides'],
+                                                  self.info['requires']) if self.warm else None
+        res = shellbuild.outcome(self.enc, M.to_json(self.gen.model), warmups=warmups)
         if 'files' not in res:
             self.build_exc = res['exc']
             return False
